@@ -169,7 +169,7 @@ def run_arena(build, plan=None, budget=200000):
     return sess, arena, checker, outcome
 
 
-def explore(case, build, rng, check, tier, quick_samples=10, max_plans=None):
+def explore(case, build, rng, check, tier, quick_samples=10, max_plans=None, budget=200000):
     """reference run, then injected runs; ``check(sess, arena, checker, outcome, plan)``
     returns the violations of one execution"""
     violations = []
@@ -186,7 +186,7 @@ def explore(case, build, rng, check, tier, quick_samples=10, max_plans=None):
     sample = None
     while plans:
         plan = plans.pop(0)
-        sess, arena, checker, outcome = run_arena(build, plan)
+        sess, arena, checker, outcome = run_arena(build, plan, budget)
         evals += 1
         stats['activations'] += sess.n
         for key in ('struck:cancel', 'struck:interrupt', 'struck:close', 'signals_landed',
